@@ -13,7 +13,7 @@ LEVEL = 'exploration'
 RULE = ('Batches of 1..1000 lanes; each lane draws a monotone continuous function kind (linear, '
         'cubic/quintic with flat root, |z|^0.2 sign z, tanh, expm1, arctan), a slope 10^U(-6,6), a '
         'bracket [lo, lo+w] with |lo| <= 1e3, w = 10^U(-6,6) capped so |x| <= 1e6, and a root at '
-        'lo+frac*w (frac in {0,1} for ~15% of lanes). Oracle = the known root. Non-trivial: a batch '
+        'lo+frac*w (frac in {0,1} for ~15% of lanes, dyadic fractions of power-of-two brackets so that a bisection midpoint is an exact zero). Oracle = the known root. Non-trivial: a batch '
         'with >= 2 function kinds and slope spread >= 1e4 (sub-properties bisect/chandrupatla), a '
         'KDE inversion with >= 5 distinct training values, or an invalid bracket mixed into valid '
         'lanes. Distinctness = hash of the generated case.')
@@ -72,6 +72,7 @@ def lane_strategy():
         st.floats(-1000, 1000, allow_nan=False),
         st.builds(lambda s, e: s * 10.0 ** e, st.sampled_from([-1.0, 1.0]), st.floats(-2, 3)),
         st.just(0.0),
+        st.sampled_from([-4.0, -1.0, 1.0, 8.0]),
     )
     frac = st.one_of(
         st.floats(0.0, 1.0, allow_nan=False),
@@ -80,13 +81,14 @@ def lane_strategy():
         st.floats(0.0, 1.0, allow_nan=False),
         st.floats(0.0, 1.0, allow_nan=False),
         st.sampled_from([0.0, 1.0]),
+        st.sampled_from([0.5, 0.25, 0.75, 0.125, 0.625]),      # roots that a bisection midpoint hits exactly
         st.builds(lambda e, s: (10.0 ** e) if s else 1 - 10.0 ** e, st.floats(-12, -1), st.booleans()),
     )
     return st.fixed_dictionaries({
         'kind': st.sampled_from(KINDS),
         'slope_exp': st.floats(-6, 6),
         'lo': lo,
-        'w': st.floats(-6, 6).map(lambda e: min(10.0 ** e, 9.0e5)),
+        'w': st.one_of(st.floats(-6, 6).map(lambda e: min(10.0 ** e, 9.0e5)), st.sampled_from([1.0, 2.0, 8.0, 1024.0])),
         'frac': frac,
     })
 
